@@ -424,7 +424,7 @@ fn k_composite_nomask() {
     composite_contract(with_clip, kani::any(), false);
 }
 
-// @ob id=K.composite_singular props=C11,C07 kind=complete tier=quick timeout=300 fns=DrawTarget::composite
+// @ob id=K.composite_singular props=C11,C07 kind=complete unwind_complete=yes tier=quick timeout=300 fns=DrawTarget::composite
 // @+ desc="a non-invertible current transform draws nothing: composite returns before a blitter is built"
 #[kani::proof]
 #[kani::unwind(10)]
@@ -481,12 +481,12 @@ fn push_clip_rect_wf(with_clip: u8) {
     assert!(wf_rect(dt.clip_bounds()), "WF: clip bounds are empty or inside the surface box");
     kani::cover!(r.max.x > CW && r.min.x < 0);
 }
-// @ob id=K.push_clip_rect_wf0 props=C07 kind=complete tier=quick timeout=600 fns=DrawTarget::push_clip_rect
+// @ob id=K.push_clip_rect_wf0 props=C07 kind=complete unwind_complete=yes tier=quick timeout=600 fns=DrawTarget::push_clip_rect
 // @+ desc="WF established by the first push_clip_rect for ANY r in ±4000: the clip bounds are empty or inside the surface (layers are sized by clip bounds and clip masks are indexed by absolute device coordinates, so a clip rectangle larger than the surface must not survive as clip bounds)"
 #[kani::proof]
 #[kani::unwind(9)]
 fn k_push_clip_rect_wf0() { push_clip_rect_wf(0); }
-// @ob id=K.push_clip_rect_wf1 props=C07 kind=complete tier=quick timeout=600 fns=DrawTarget::push_clip_rect
+// @ob id=K.push_clip_rect_wf1 props=C07 kind=complete unwind_complete=yes tier=quick timeout=600 fns=DrawTarget::push_clip_rect
 // @+ desc="WF preserved by push_clip_rect on a non-empty stack for ANY r in ±4000"
 #[kani::proof]
 #[kani::unwind(9)]
@@ -526,13 +526,13 @@ fn push_clip_rect_contract(with_clip: u8) {
     kani::cover!(r.max.x > CW);
     kani::cover!(r.max.x < r.min.x);
 }
-// @ob id=K.push_clip_rect_0 props=C05,C11 kind=complete tier=quick timeout=600 fns=DrawTarget::push_clip_rect,DrawTarget::pop_clip,DrawTarget::clip_bounds
+// @ob id=K.push_clip_rect_0 props=C05,C11 kind=complete unwind_complete=yes tier=quick timeout=600 fns=DrawTarget::push_clip_rect,DrawTarget::pop_clip,DrawTarget::clip_bounds
 // @+ desc="push_clip_rect(r) on an empty clip stack for ANY r in ±4000 (empty, inverted, off-surface): the effective clip region (clip bounds ∩ surface) = surface ∩ r; pixels, layers, transform unchanged (transform ignored); pop_clip restores exactly the previous state; clip_bounds() = top rect or surface. Loop-free: complete for all rect values (surface size fixed 3x2 only to build the object)"
 #[kani::proof]
 #[kani::unwind(9)]
 fn k_push_clip_rect_0() { push_clip_rect_contract(0); }
 
-// @ob id=K.push_clip_rect_1 props=C05 kind=complete tier=quick timeout=600 fns=DrawTarget::push_clip_rect,DrawTarget::pop_clip
+// @ob id=K.push_clip_rect_1 props=C05 kind=complete unwind_complete=yes tier=quick timeout=600 fns=DrawTarget::push_clip_rect,DrawTarget::pop_clip
 // @+ desc="push_clip_rect(r) on top of a rectangular clip entry: effective clip region = old clip bounds ∩ r; lower entry unchanged; pop restores"
 #[kani::proof]
 #[kani::unwind(9)]
@@ -637,7 +637,7 @@ fn fill_rec<Backing: AsRef<[u32]> + AsMut<[u32]>>(dt: &mut DrawTarget<Backing>, 
     }
 }
 
-// @ob id=K.mask_args props=C03,C02,C07,C11 kind=complete tier=quick timeout=300 fns=DrawTarget::mask
+// @ob id=K.mask_args props=C03,C02,C07,C11 kind=complete unwind_complete=yes tier=quick timeout=300 fns=DrawTarget::mask
 // @+ desc="mask(src,x,y,m) composites with mask rect = shape rect = [x,x+m.width) x [y,y+m.height), SrcOver, alpha 1, m.data as coverage (so by K.composite_mask the byte for device pixel (px,py) is m.data[(py-y)*m.width+(px-x)] and nothing outside that rectangle changes), for every x,y in ±4000 and any transform (ignored)"
 #[kani::proof]
 #[kani::unwind(9)]
@@ -1017,7 +1017,7 @@ fn choose_blitter_case(with_mask: bool, clip_kind: u8, srcover: bool) {
     }
     kani::cover!(width == 3);
 }
-// @ob id=K.choose_blitter props=C03,C05,C14 kind=complete tier=quick timeout=900 fns=DrawTarget::choose_blitter
+// @ob id=K.choose_blitter props=C03,C05,C14 kind=complete unwind_complete=yes tier=quick timeout=900 fns=DrawTarget::choose_blitter
 // @+ desc="choose_blitter, all 12 combinations of (mask?, clip stack: empty | rect only | path mask on top, SrcOver?): the variant is a function of (mask?, TOP clip entry has a mask?, SrcOver?) only (a mask-less clip entry does not change the blitter); x,y = dest_bounds.min, dest_stride = dest_bounds.width, tmp.len() = surface width, clip = the top entry's mask with clip_stride = surface width, row proc = build_blend_proc(mode); dest_bounds symbolic"
 #[kani::proof]
 #[kani::unwind(9)]
